@@ -16,6 +16,7 @@ CONSTANTS
   CloseConn = TRUE
   HasFallback = TRUE
   AllowClose = TRUE
+  DeadlineTicks = FALSE
   OneAtATime = FALSE
   SafePool = FALSE
   Strict = TRUE
